@@ -3,7 +3,7 @@
    case by comparing the model's own dense view with the per-pixel specification (Model/RunC03.v); it is
    NOT a theorem yet (see DESIGN.md, C03 partial). *)
 From Coq Require Import ZArith List.
-From TS Require Import Model.AlphaRuns Proofs.AlphaProofs.
+From TS Require Import Model.AlphaRuns Proofs.AlphaProofs Proofs.AlphaRefine.
 Local Open Scope Z_scope.
 
 (* every supersampled span is split into (partial start pixel, n full pixels, partial stop pixel) without
@@ -34,3 +34,13 @@ Proof. exact catch_overflow_spec. Qed.
 Theorem C03_max_value :
   forall y, 0 <= y -> (let '(_, _, _, _, mv) := blit_h_args 0 1 y in mv) = if y mod 4 =? 3 then 63 else 64.
 Proof. exact max_value_eq. Qed.
+
+(* the run-length structure: break_run only re-partitions the runs.  For a well-formed structure (the runs from 0
+   partition the row; [pre] = the runs before the offset the caller passes, which is a run boundary) the per-pixel
+   coverage (dense view) is unchanged, the structure stays well-formed, and run boundaries now exist at x and x + count *)
+Theorem C03_break_run_preserves_dense :
+  forall s pre segs base x count,
+  WFruns s (pre ++ segs) -> total pre = base -> 0 <= x -> 0 < count -> x + count <= total segs ->
+  exists s' segs', break_run s base x count = Some s' /\ WFruns s' (pre ++ segs') /\ dense s' = dense s /\
+                   boundary segs' x /\ boundary segs' (x + count).
+Proof. exact break_run_preserves_dense. Qed.
